@@ -6,7 +6,9 @@ from core import hx, unhx
 LEAN_MODULE = 'QM.Props.C05Cmd'
 THEOREMS = ['P.C05_args_eq_systemd', 'P.C05_strv_eq_systemd', 'P.C05_no_word_dropped', 'P.C05_rendering_reads_back',
             'P.C05_empty_word_kept', 'P.C05_high_escape_boundary',
-            'P.implTbl_of_spec', 'P.implTbl_numeric', 'P.implSep_sound', 'P.implSep_complete', 'Cv.C05_network_podman_args_reach_command', 'Cv.C05_network_podman_args_all']
+            'P.implTbl_of_spec', 'P.implTbl_numeric', 'P.implSep_sound', 'P.implSep_complete', 'Cv.C05_network_podman_args_reach_command', 'Cv.C05_network_podman_args_all',
+            'Cv.podman_args_words', 'Cv.args_words', 'Cv.C05_image_podman_args', 'Cv.C05_volume_podman_args', 'Cv.C05_pod_podman_args', 'Cv.C05_kube_podman_args',
+            'Cv.C05_build_podman_args', 'Cv.C05_container_podman_args_and_exec', 'Cv.C05_container_exec_words']
 ASSUMPTIONS = [
     'P.Spec.extractFirst / decode specCfg transcribe systemd extract_first_word / cunescape_one at character level (DESIGN.md appendix A)',
     'Impl.word / Impl.strvWord are hand-written models of SplitWord::next / SplitStrv::next over the separator set and escape table extracted from split.rs; tied by the split_word / split_strv correspondence',
@@ -16,7 +18,10 @@ LEVEL_TEXT = ('Proof: Lean theorems C05_args_eq_systemd / C05_strv_eq_systemd â€
               'extract_first_word (UNQUOTE|CUNESCAPE|RELAX resp. UNQUOTE|RETAIN_ESCAPE), iterated, returns a word list, the model of the '
               'repository\'s splitter returns the same list (simulation by induction over the input; iterated by induction over the calls), hence '
               'every systemd-valid spelling of every word list reads back, and the repository\'s own rendering of any NUL-free word list does '
-              '(C05_rendering_reads_back). Separator set and escape table come from the source on every run. Model tied by correspondence; '
+              '(C05_rendering_reads_back). At the command level (QM/Props/C05Cmd.lean), for all seven converter models: the words systemd finds in the effective '
+              'PodmanArgs= assignments â€” all of them, in order, quoted-empty words included â€” are consecutive arguments of the generated command, after every '
+              'key-derived option and directly before the positional arguments (C05_<type>_podman_args), and the words of a container\'s Exec= close its command '
+              '(C05_container_exec_words). Separator set and escape table come from the source on every run. Model tied by correspondence; '
               'the specification splitter is also applied to the real splitter\'s inputs as an oracle.')
 LEVEL_NOTE = ('Trusted: Lean kernel; transcription of systemd\'s splitter; extractor; correspondence on generated inputs. Known finding KF-C05-1 '
               '(escapes >= 0x80) is outside the statement proved.')
